@@ -43,8 +43,8 @@ def setup(tier):
 
 def budget(tier):
     if tier == "quick":
-        return {"cases": 500, "workers": 8, "watchdog_s": 1500}
-    return {"cases": 20000, "workers": 16, "watchdog_s": 7200}
+        return {"cases": 6000, "workers": 8, "watchdog_s": 1800}
+    return {"cases": 240000, "workers": 16, "watchdog_s": 3600, "budget_s": 600}
 
 
 def gen_case(rng, tier):
